@@ -447,14 +447,21 @@ class EpisodeMonitor:
         self.prev = dumps
 
 
+EPISODE_TIMEOUT = 180      # an episode of 50 operations takes well under a second; minutes mean an operation never returned
+HANGS = []                 # seeds of episodes that hung in this run (circuit breaker: after 3 no further episode is started)
+
+
 def run_episode_proc(args):
     seed, n = args
+    if len(HANGS) >= 3:
+        return seed, 125, "", "not run: three earlier episodes of this stream never finished"
     try:
         p = subprocess.run([os.path.join(common.BIN, "macro_diff"), "episode", str(seed), str(n)], stdout=subprocess.PIPE,
-                           stderr=subprocess.PIPE, env=common.ENV, text=True, timeout=1800)
+                           stderr=subprocess.PIPE, env=common.ENV, text=True, timeout=EPISODE_TIMEOUT)
     except subprocess.TimeoutExpired as e:
         out = e.stdout.decode() if isinstance(e.stdout, bytes) else (e.stdout or "")
-        return seed, 124, out, "macro_diff did not finish within 1800 s (an operation of the real code never returned?)"
+        HANGS.append(seed)
+        return seed, 124, out, f"macro_diff did not finish within {EPISODE_TIMEOUT} s: an operation of the real code never returned"
     return seed, p.returncode, p.stdout, p.stderr[-300:]
 
 
@@ -514,10 +521,16 @@ def run_macro_stream(prop, stream, tier, seed, workdir, scale=1):
         results = list(ex.map(run_episode_proc, seeds))
     texts = {}
     errors = []
+    hung = []
     for s, rc, out, err in results:
-        if rc != 0:
+        if rc == 124:
+            hung.append((s, out))
+        elif rc == 125:
+            pass
+        elif rc != 0:
             errors.append(f"macro_diff episode {s} exited {rc}: {err}")
-        texts[s] = out
+        texts[s] = out if rc == 0 else ""
+    del HANGS[:]
     # regression corpus first
     eps = []
     cdir = os.path.join(common.ROOT, "corpus", "macro")
@@ -540,6 +553,13 @@ def run_macro_stream(prop, stream, tier, seed, workdir, scale=1):
     with ThreadPoolExecutor(max_workers=common.JOBS) as ex:
         driven = list(ex.map(drive, chunks))
     verdicts = [{"kind": "BAD", "id": None, "episode": 0, "step": 0, "text": e} for e in errors]
+    for (hs, hout) in hung:
+        last = [l for l in hout.splitlines() if l.startswith("S|")][-1:] or ["(before the first operation)"]
+        for pid in ("C17", "C20", "C16"):
+            verdicts.append({"kind": "MON", "id": pid, "episode": 0, "step": 0, "ep_text": hout,
+                             "text": f"MON {pid} :: an operation on generated cached functions never returned: macro_diff episode {hs} "
+                                     f"(sequential history, one operation at a time) did not finish within {EPISODE_TIMEOUT} s; "
+                                     f"last completed step: {last[0][:200]}"})
     acc = {"steps": 0, "events": {}, "configs": set(), "by_flavour_policy": {}, "nontrivial": set(), "samples": []}
     model_runs = 0
     aborted = 0
